@@ -164,20 +164,33 @@ func (c *ctl) mismatch(sub, what string, req, want, got []int) {
 		Req: nz(req), Want: nz(want), Got: nz(got)})
 }
 
-// stacks is runtime.Stack(all) with the goroutines that are inside the code under test moved to the front,
+// stacks is runtime.Stack(all) with the goroutines inside the code under test moved to the front (distinct stacks first),
 // truncated to 6000 bytes.
 func stacks() string {
 	buf := make([]byte, 4<<20)
 	buf = buf[:runtime.Stack(buf, true)]
-	var in, other []string
+	var in, dup, other []string
+	seen := map[string]bool{}
 	for _, g := range strings.Split(string(buf), "\n\n") {
-		if strings.Contains(g, "lisk-engine/pkg") {
-			in = append(in, g)
-		} else {
+		if !strings.Contains(g, "lisk-engine/pkg") {
 			other = append(other, g)
+			continue
+		}
+		// signature = the source positions of the stack: goroutines blocked at the same place come once first
+		sig := ""
+		for _, l := range strings.Split(g, "\n") {
+			if strings.HasPrefix(l, "\t") {
+				sig += strings.SplitN(l, " +0x", 2)[0]
+			}
+		}
+		if seen[sig] {
+			dup = append(dup, g)
+		} else {
+			seen[sig] = true
+			in = append(in, g)
 		}
 	}
-	s := strings.Join(append(in, other...), "\n\n")
+	s := strings.Join(append(append(in, dup...), other...), "\n\n")
 	if len(s) > 6000 {
 		s = s[:6000]
 	}
@@ -369,7 +382,9 @@ func scenarioCache(cfg config, r *hx.Rng) (rec, []mmRec) {
 			wg.Add(1)
 			go func(i int) { defer wg.Done(); f.cacheReader(c, i, hx.NewRng(seeds[i]), minH, &torn) }(i)
 		}
+		c.active.Store(true)
 		c.sleep(cfg.ms)
+		c.active.Store(false)
 		c.stop.Store(true)
 		c.join(&wg)
 		c.setParam("torn_reads", int(torn.Load()))
@@ -672,7 +687,9 @@ func scenarioBulk(cfg config, r *hx.Rng) (rec, []mmRec) {
 				}
 			}(i)
 		}
-		wg.Wait() // lookups: bounded by the no-progress rule of the watchdog
+		c.active.Store(true)
+		wg.Wait() // lookups: the watchdog requires them to make progress
+		c.active.Store(false)
 		c.stop.Store(true)
 		c.join(&wwg)
 	})
@@ -789,7 +806,9 @@ func scenarioCertpool(cfg config, r *hx.Rng) (rec, []mmRec) {
 				}
 			}(g)
 		}
+		c.active.Store(true)
 		c.sleep(cfg.ms)
+		c.active.Store(false)
 		c.stop.Store(true)
 		c.join(&wg)
 		c.setParam("adds", int(finished.Load()))
@@ -886,7 +905,9 @@ func scenarioEvents(cfg config, r *hx.Rng) (rec, []mmRec) {
 				time.Sleep(time.Duration(200+rr.Intn(800)) * time.Microsecond)
 			}
 		}()
-		pubs.Wait() // bounded by the no-progress rule of the watchdog
+		c.active.Store(true)
+		pubs.Wait() // the watchdog requires the publishers to make progress
+		c.active.Store(false)
 		pubsDone.Store(true)
 		c.joinAt.Store(time.Now().UnixNano())
 		late.Wait()
@@ -1026,7 +1047,9 @@ func scenarioDiffdb(cfg config, r *hx.Rng) (rec, []mmRec) {
 				}
 			}(g)
 		}
+		c.active.Store(true)
 		c.sleep(cfg.ms)
+		c.active.Store(false)
 		c.stop.Store(true)
 		c.join(&wg)
 		if c.failed() {
